@@ -680,14 +680,16 @@ def gen_malformed(rng):
 def run(chk):
     rng = chk.rng
     tier = chk.tier
-    chk.prove([], extra_vo=["theories/Model/CDataCases.vo"])
+    chk.prove([], extra_vo=["theories/Model/CDataCases.vo", "theories/Model/CDataPolarsCases.vo"])
     chk.cov["trusted_base"] = [
         "Coq 8.16.1 kernel + vm_compute",
         "hand model Model/CData.v of cdata.py (RecordSpecification.__init__, RecordMap.__init__/transform/inverse/example_input/compose) and of "
         "pandas_base.py blocks_to_rowrecs / rowrecs_to_blocks / table_is_keyed_by_columns, transcribed step by step",
         "hand models of the pandas primitives used there (loc column selection, groupby sort=True dropna=True, sort_values stable with nulls last, "
         "left merge on the control keys, positional concat axis=1, concat axis=0): modelled, not verified; sampled by the correspondence on every run",
-        "the Polars realisation (polars_model.py) is NOT modelled: it is covered by the differential oracle Pandas vs Polars only",
+        "hand model Model/CDataPolars.v of polars_model.py blocks_to_rowrecs / rowrecs_to_blocks / table_is_keyed_by_columns and of the Polars primitives used there "
+        "(select, group_by, partition_by maintain_order, sort nulls first, one-row left join, horizontal/vertical concat); dtypes are NOT modelled: cases in which "
+        "Polars itself raises (SchemaError etc.) are skipped by the correspondence and counted",
         "harness/props/C17.py: value encoding (every number an exact rational in lowest terms, None/NaN -> VNull), the AST reader that extracts the "
         "value_suffix compose() passes to example_input (\"\" since /repo 031522a)",
     ]
@@ -715,6 +717,16 @@ def run(chk):
 
     def add_term(t, m):
         terms.append(t); meta.append(m)
+    pterms, pmeta = [], []
+
+    def add_pl_term(m, data, obs, exact, own_raises=("ValueError", "AssertionError"), note=None):
+        """RecordMap.transform on a Polars frame vs Model/CDataPolars.v transform_pl; skipped when Polars itself raises
+        (dtype / schema errors are not modelled)"""
+        if obs[0] == "ok" or (obs[0] == "raise" and obs[1] in own_raises):
+            pterms.append("K" + term_transform(m, data, obs, exact)[1:].replace("Transform", "TransformPl", 1))
+            pmeta.append({"map": m, "data": jt(data), "observed": obs[0] if obs[0] == "ok" else obs[1], "backend": "polars", "note": note})
+        else:
+            chk.dist("polars_case_skipped_%s" % (obs[1] if isinstance(obs[1], str) else obs[0]))
     stats = chk.cov["oracle"]
     for k in ("reference_checked", "roundtrip_checked", "compose_checked", "compose_none", "compose_seq_raises", "compose_raises", "agree_checked",
               "polars_raises", "polars_agree", "both_raise", "outside_guard_null_key", "outside_guard_null_key_failures"):
@@ -867,6 +879,7 @@ def run(chk):
             # correspondence: transform on Pandas (exact columns, exact row order)
             obs = fwd[(i, o, "pandas")]
             add_term(term_transform(m, data, obs, obs[0] == "ok"), {"map": m, "data": jt(data), "observed": obs[0], "expected": jt(expected)})
+            add_pl_term(m, data, fwd[(i, o, "polars")], True)
         # (c) composites: first m2, then m1   (m1.compose(m2), m2 >> m1)
         for (p1, p2) in (pairs if tier == "thorough" else rng.sample(pairs, 4)):
             if p1 not in built or p2 not in built:
@@ -937,6 +950,7 @@ def run(chk):
             stats["outside_guard_null_key"] += 1
             obs = observe_transform(built[("rows", "A")], data, "pandas")
             add_term(term_transform(m, data, obs, False), {"map": m, "data": jt(data), "observed": obs[0], "note": "null record key"})
+            add_pl_term(m, data, observe_transform(built[("rows", "A")], data, "polars"), True, note="null record key (Polars sorts nulls first)")
             if obs[0] != "ok" or equivalent(obs[1], form(w2, A)) is not None:
                 stats["outside_guard_null_key_failures"] += 1
         # incomplete / foreign blocks (model vs code only: outside the property's hypotheses)
@@ -958,6 +972,8 @@ def run(chk):
             obs = observe_transform(built[("A", "rows")], data, "pandas")
             chk.dist("degenerate_blocks_%s_%s" % (how, obs[0]))
             add_term(term_transform(m, data, obs, False), {"map": m, "data": jt(data), "observed": obs[0], "note": how})
+            add_pl_term(m, data, observe_transform(built[("A", "rows")], data, "polars"), False,
+                        own_raises=("ValueError", "AssertionError", "TypeError"), note=how)
 
     # ---- malformed / degenerate constructor arguments
     for _ in range(N_MALFORMED[tier]):
@@ -1014,8 +1030,33 @@ def run(chk):
             chk.corr_break("correspondence case files failed to compile", errors[0])
         for i in failing[:3]:
             chk.corr_break("Model/CData.v disagrees with cdata.py / pandas_base.py", meta[i])
-        if failing or errors or not getattr(chk, "proof_ok", True):
-            search_after_break(chk, rng, [meta[i] for i in failing[:20]], violation, shrink_data)
+        pfailing, perrors = [], []
+        if os.path.exists(os.path.join(lib.COQ, "theories/Model/CDataPolarsCases.vo")):
+            ppre = ("From Coq Require Import List ZArith QArith Bool String.\nImport ListNotations.\n"
+                    "From DA Require Import Base.PyRT Base.Cases Base.Val Model.CData Model.CDataCases Model.CDataPolars Model.CDataPolarsCases.\n"
+                    "Open Scope string_scope.\nOpen Scope list_scope.\n")
+            pfailing, perrors, pchecked = lib.run_case_files("C17pl", ppre, ["(%s)" % t for t in pterms], "check_cases_pl", per_file=120)
+            chk.cov["correspondence"]["polars"] = {"cases": len(pterms), "checked_in_coq": pchecked, "disagreements": len(pfailing), "errors": perrors[:2]}
+            chk.cov["traces_validated_against_impl"] = nchecked + pchecked
+            if perrors:
+                chk.corr_break("Polars correspondence case files failed to compile", perrors[0])
+            for i in pfailing[:3]:
+                chk.corr_break("Model/CDataPolars.v disagrees with polars_model.py", pmeta[i])
+        else:
+            chk.corr_break("Model/CDataPolarsCases.vo not built", "")
+        if failing or errors or pfailing or perrors or not getattr(chk, "proof_ok", True):
+            dis = [meta[i] for i in failing[:20]]
+            # a Polars disagreement: the likeliest failing input is that case under the Pandas-vs-Polars oracle
+            for i in pfailing[:20]:
+                pm = pmeta[i]
+                try:
+                    st, det = oracle_agree(pm["map"], pm["data"])
+                    if st == "differs":
+                        violation("Pandas and Polars disagree on RecordMap.transform (%s): %s" % (map_shape(pm["map"]), det),
+                                  {"oracle": "agree", "map": pm["map"], "data": pm["data"], "backend": "both"}, {"oracle": "agree", "shape": map_shape(pm["map"])}, shrink_data)
+                except Exception:
+                    pass
+            search_after_break(chk, rng, dis, violation, shrink_data)
     else:
         chk.corr_break("Model/CDataCases.vo not built", "")
         search_after_break(chk, rng, [], violation, shrink_data)
